@@ -240,12 +240,13 @@ class World:
         return any(e["inherits"] for e in self.ebs.values()) and self.effective_eclass() is None
 
     def fresh(self, memo):
-        """what a cacheless read of the current files gives, per package"""
+        """what a cacheless read of the current files gives, per package (a function of the file contents alone, so it is
+        memoised per worker process with the scratch root abstracted away)"""
         k = self.content_key()
         if k not in memo:
             self.regens += len(PKGS)
-            memo[k] = self.real_read_all(False)
-        return copy.deepcopy(memo[k])
+            memo[k] = _swap_root(self.real_read_all(False), self.root, "<root>")
+        return _swap_root(copy.deepcopy(memo[k]), "<root>", self.root)
 
     # ---- independent reader of the entry file (flat_hash format: KEY=value lines)
     def parse_entry_file(self):
@@ -504,6 +505,19 @@ class World:
         return tuple(sorted(keep.items()))
 
 
+def _swap_root(res, a, b):
+    out = {}
+    for p, r in res.items():
+        if r[0] == "ok":
+            out[p] = ("ok", r[1], {n: (path.replace(a, b) if isinstance(path, str) else path) for n, path in r[2].items()})
+        else:
+            out[p] = ("error", r[1].replace(a, b))
+    return out
+
+
+_FRESH = {}  # content key -> cacheless metadata; shared by the tasks a worker process handles
+
+
 def _d(a, b):
     """compact difference of two dicts"""
     a, b = a or {}, b or {}
@@ -517,7 +531,7 @@ class Explorer:
         self.events = events
         self.dir = tempfile.mkdtemp(dir="/dev/shm", prefix=f"verif-C48-{os.getpid()}-")
         self.root = os.path.join(self.dir, "w")
-        self.memo_fresh = {}
+        self.memo_fresh = _FRESH
         self.states = {}  # hist -> dict(snap, canon, enabled, msgs, cls)
         self.regens = 0
         self.reads = 0
